@@ -251,7 +251,7 @@ JudgeGroup(g) ==
     [] g.kind = "C10conj"  -> Loosen(g, JudgeC10Conj(g), "C10")
     [] g.kind = "C09"      -> Loosen(g, JudgeC09(g), "C09")
     [] g.kind = "C09head"  -> Loosen(g, JudgeC09Head(g), "C09")
-    [] g.kind = "C11"      -> JudgeC11(g)
+    [] g.kind = "C11"      -> Loosen(g, JudgeC11(g), "C11")   \* operands whose outcome depends on member order
     [] g.kind = "C11exists" -> JudgeC11Exists(g)
     [] g.kind = "C11filter" -> Loosen(g, JudgeC11Filter(g), "C11")
     [] g.kind = "C16str" -> JudgeC16Str(g)
